@@ -64,7 +64,11 @@ def check_helpers(tier, seed):
                 for l in range(N):
                     if abs(d[l] + 1) < 1e-12:
                         continue  # alpha = 1, zero frequency: d_l*H + I is singular by theory (time-periodic problem), no inverse is claimed
-                    Gi = H.get_G_inv_matrix(l, N, a, sp_)
+                    try:
+                        Gi = H.get_G_inv_matrix(l, N, a, sp_)
+                    except Exception:  # d_l*H + I is regular here: failing to deliver the inverse breaks the clause
+                        okG = False
+                        continue
                     okG = okG and np.allclose((d[l] * Hm + np.eye(M)) @ Gi, np.eye(M), atol=1e-9)
                 obs.append(_ob(f'G_inv[N={N},alpha={a},M={M}]:inverse_of_d_l*H+I_with_the_same_d_l', okH and okG))
     try:
